@@ -2,7 +2,7 @@
    the real code under a given umask, the mode observed with stat, and whether the file's bytes
    contain the node's secret scalars; [mismatches] lists the cases on which the model disagrees. *)
 From Coq Require Import ZArith List Bool.
-From DV Require Import Model.Secrecy Gen.Consts Corr.CorrBase.
+From DV Require Import Model.Secrecy Gen.Consts Gen.SaveFlags Corr.CorrBase.
 Import ListNotations.
 Open Scope Z_scope.
 
@@ -15,7 +15,7 @@ Definition dir_perm (which : Z) : Z := if which =? 0 then fs_default_dir_perm el
 Definition ok (c : scase) : bool :=
   match c with
   | FileMode f u p m hs =>
-      match final_mode u p (file_trace fs_rw_file_perm dkg_bolt_open_perm chain_bolt_open_perm f) with
+      match final_mode u p (file_trace fs_rw_file_perm dkg_bolt_open_perm chain_bolt_open_perm save_secure f) with
       | Some m' => (m' =? m) && Bool.eqb (file_secret f) hs
       | None => false
       end
